@@ -1,5 +1,5 @@
 SPECIFICATION Spec
-CONSTANTS Workers = {w1, w2, w3}  MaxIter = 4  AllowCancel = TRUE  BodiesEnd = TRUE
+CONSTANTS Workers = {w1, w2, w3}  MaxIter = 4  AllowCancel = TRUE  BodiesEnd = TRUE  PreCancelled = FALSE  SyncFlag = TRUE
 INVARIANTS Ceiling Gapless Unique NoStartBeforeAll
 PROPERTIES Termination
 CHECK_DEADLOCK FALSE
